@@ -3,10 +3,7 @@
 import json, os, sys, importlib, subprocess
 HERE = os.path.dirname(os.path.dirname(os.path.abspath(__file__)))
 sys.path.insert(0, HERE); sys.path.insert(0, os.path.join(HERE, "engine"))
-NA = {
- "C08": "reassembly correctness is interval arithmetic over all fragment multisets and byte values; no structural clause is a necessary condition that a sound static rule could decide (DESIGN §2 C08, §3)",
- "C09": "colour-map split/merge correctness over ack/loss histories is value-level; its one structural clause (retransmissions bypass flow limit, only Pending picks are fresh) is checked under C11-R3 (DESIGN §2 C09, §3)",
-}
+NA = {}
 props = [json.loads(l) for l in open(os.path.join(HERE, "properties.jsonl"))]
 base = json.load(open("/root/.vp/BASELINE.json"))
 fixes = []
